@@ -1,0 +1,135 @@
+//go:build verif
+
+// Verification hooks for the decoding readers (compiled only with -tags verif).
+// Add-only: thin exported wrappers that let an external harness drive an
+// ioDecReader / bytesDecReader one decReaderI operation at a time.
+// Nothing here is referenced by the library itself.
+
+package codec
+
+import "io"
+
+// VerifReadOp is one decReaderI operation.
+//
+// Kind: 0 readn1, 1 readn2, 2 readn3, 3 readn4, 4 readn8, 5 readx(N), 6 readxb(N),
+// 7 readb(make([]byte,N)), 8 skip(N), 9 skipWhitespace, 10 jsonReadNum,
+// 11 jsonReadAsisChars, 12 jsonReadUntilDblQuote, 13 startRecording, 14 stopRecording.
+type VerifReadOp struct {
+	Kind int
+	N    uint
+}
+
+type verifDecReader interface {
+	readx(n uint) []byte
+	skip(n uint)
+	readb([]byte)
+	readxb(n uint) (out []byte, usingBuf bool)
+	readn1() byte
+	readn2() [2]byte
+	readn3() [3]byte
+	readn4() [4]byte
+	readn8() [8]byte
+	numread() uint
+	skipWhitespace() (token byte)
+	jsonReadNum() (v []byte, token byte)
+	jsonReadAsisChars() (v []byte, terminal byte)
+	jsonReadUntilDblQuote() (v []byte)
+	startRecording()
+	stopRecording() []byte
+}
+
+// verifReadDo applies one operation. A panic (how the readers report faults,
+// bounds panics included: Decode recovers both) is returned as err.
+// out is a copy of the bytes the operation returned.
+func verifReadDo(z verifDecReader, o VerifReadOp) (out []byte, tok byte, err error) {
+	defer func() {
+		if r := recover(); r != nil {
+			if e, ok := r.(error); ok {
+				err = e
+			} else {
+				panic(r)
+			}
+		}
+	}()
+	var v []byte
+	switch o.Kind {
+	case 0:
+		v = []byte{z.readn1()}
+	case 1:
+		x := z.readn2()
+		v = x[:]
+	case 2:
+		x := z.readn3()
+		v = x[:]
+	case 3:
+		x := z.readn4()
+		v = x[:]
+	case 4:
+		x := z.readn8()
+		v = x[:]
+	case 5:
+		v = z.readx(o.N)
+	case 6:
+		v, _ = z.readxb(o.N)
+	case 7:
+		v = make([]byte, o.N)
+		z.readb(v)
+	case 8:
+		z.skip(o.N)
+	case 9:
+		tok = z.skipWhitespace()
+	case 10:
+		v, tok = z.jsonReadNum()
+	case 11:
+		v, tok = z.jsonReadAsisChars()
+	case 12:
+		v = z.jsonReadUntilDblQuote()
+	case 13:
+		z.startRecording()
+	case 14:
+		v = z.stopRecording()
+	}
+	out = append([]byte(nil), v...)
+	return
+}
+
+// VerifIoReader is an ioDecReader over r with its own (fresh) free list.
+type VerifIoReader struct {
+	z     ioDecReader
+	blist bytesFreeList
+}
+
+func NewVerifIoReader(r io.Reader, bufsize int, maxInitLen int) *VerifIoReader {
+	v := new(VerifIoReader)
+	v.z.resetIO(r, bufsize, maxInitLen, &v.blist)
+	return v
+}
+
+// BufCap is cap(z.buf) (as left by resetIO when called first).
+func (v *VerifIoReader) BufCap() int { return cap(v.z.buf) }
+
+// IsByteReader reports whether resetIO saw an io.ByteReader.
+func (v *VerifIoReader) IsByteReader() bool { return v.z.rbr }
+
+func (v *VerifIoReader) NumRead() uint { return v.z.numread() }
+
+func (v *VerifIoReader) Do(o VerifReadOp) (out []byte, tok byte, err error) {
+	return verifReadDo(&v.z, o)
+}
+
+// VerifBytesReader is a bytesDecReader over in.
+type VerifBytesReader struct {
+	z bytesDecReader
+}
+
+func NewVerifBytesReader(in []byte) *VerifBytesReader {
+	v := new(VerifBytesReader)
+	v.z.resetBytes(in)
+	return v
+}
+
+func (v *VerifBytesReader) NumRead() uint { return v.z.numread() }
+
+func (v *VerifBytesReader) Do(o VerifReadOp) (out []byte, tok byte, err error) {
+	return verifReadDo(&v.z, o)
+}
